@@ -94,7 +94,7 @@ class VartypeView:
 
     @offset.setter
     def offset(self, bias: Bias):
-        if self._vartype == self.data.vartype:
+        if self._vartype == self.data.vartype():
             self.data.offset = bias
         elif self._vartype is BINARY and self.data.vartype() is SPIN:
             # binary <- spin
